@@ -38,6 +38,9 @@ RESOLVE_NAMES = (SNEP, NAME_A, NAME_B, 'urn:nfc:sn:ab', 'urn:nfc:sn:')
 _R = (SNEP, NAME_A, NAME_B, 'urn:nfc:sn:ab')
 RESOLVE_MANY = tuple((a, b) for a in _R for b in _R if a != b) + (
     (NAME_A, 'urn:nfc:sn:ab', NAME_B), ('urn:nfc:sn:ab', SNEP, 'urn:nfc:sn:'))
+# a second lookup issued while the answer to the first is still on its way
+RESOLVE_LATE = ((NAME_A, NAME_B), (NAME_B, 'urn:nfc:sn:ab'),
+                ('urn:nfc:sn:ab', NAME_A), (SNEP, NAME_A))
 CONNECT_NAMES = (SNEP, NAME_A, NAME_B)
 CONNECT_ADDRS = (4, 16, 32)
 KEEP_NAMES = (NAME_A, NAME_B)      # connect and keep the connection open
@@ -184,6 +187,7 @@ class Spec(object):
             acts.append(('close_bg',))
         acts += [('resolve', n) for n in RESOLVE_NAMES]
         acts += [('resolve_many',) + ns for ns in RESOLVE_MANY]
+        acts += [('resolve_late',) + ns for ns in RESOLVE_LATE]
         acts += [('connect', d) for d in CONNECT_NAMES + CONNECT_ADDRS]
         if free and w.bkeep is None:
             acts += [('connect_keep', d) for d in KEEP_NAMES]
@@ -431,6 +435,49 @@ class Spec(object):
             sd.sent.clear()
             sd.sent.update(saved[2])
 
+    def op_resolve_late(self, w, viol, n1, n2):
+        """The peer asks for n1; its request is on the wire but the answer
+        has not come back when it asks for n2.  Which transaction identifier
+        its random source draws is an environment choice: the adversarial one
+        is the identifier of the outstanding request, if it can be drawn."""
+        from mc import shims
+        B = w.B
+        sd = B.sap[1]
+        saved = (dict(sd.snl), list(sd.tids), dict(sd.sent))
+        try:
+            for name in (n1, n2):
+                sd.snl.pop(as_bytes(name), None)
+            st = lp.seq_call(lambda: B.resolve(n1))
+            if st[0] != 'blocked':
+                raise RuntimeError("resolve_late: %r" % (st,))
+            fr = lp.xfer(B, w.A)
+            if fr is None or fr.error or fr.sent.name != 'SNL':
+                raise RuntimeError("resolve_late: SNL not sent")
+            out = [t for t, n in sd.sent.items() if n == as_bytes(n1)]
+            shims.set_choice(lambda seq: out[0] if out and out[0] in seq
+                             else seq[0])
+            try:
+                st = lp.seq_call(lambda: B.resolve(n2))
+            finally:
+                shims.set_choice(None)
+            if st[0] != 'blocked':
+                raise RuntimeError("resolve_late: %r" % (st,))
+            # the second request goes out as well before any answer arrives
+            # (the answering side took one exchange longer)
+            fr = lp.xfer(B, w.A)
+            if fr is None or fr.error or fr.sent.name != 'SNL':
+                raise RuntimeError("resolve_late: second SNL not sent")
+            lp.quiesce(w.A, B)
+            self.count('resolve_late')
+            self._judge_many(w, viol, (n1, n2), 'second lookup while the '
+                             'first is outstanding')
+        finally:
+            sd.snl.clear()
+            sd.snl.update(saved[0])
+            sd.tids[:] = saved[1]
+            sd.sent.clear()
+            sd.sent.update(saved[2])
+
     def _resolve_many(self, w, viol, names):
         B = w.B
         for name in names:
@@ -443,12 +490,16 @@ class Spec(object):
             raise RuntimeError("resolve_many: requests not queued together")
         lp.quiesce(w.A, B)
         self.count('resolve_many')
+        self._judge_many(w, viol, names, 'several names in one SNL')
+
+    def _judge_many(self, w, viol, names, how):
+        B = w.B
         for k, name in enumerate(names):
             bname = as_bytes(name)
             truth = w.model.resolve(bname)
             if bname not in B.sap[1].snl:
-                viol.append(('C17|resolve|no answer|several names in one '
-                             'SNL|nfc.llcp.llc.ServiceDiscovery.resolve',
+                viol.append(('C17|resolve|no answer|%s|'
+                             'nfc.llcp.llc.ServiceDiscovery.resolve' % how,
                              dict(names=names, name=name,
                                   table=self.table(w))))
                 continue
@@ -464,8 +515,8 @@ class Spec(object):
                 cls = 'bound name|got 0'
             else:
                 cls = 'bound name|got another address'
-            viol.append(('C17|resolve|%s|several names in one SNL|'
-                         'nfc.llcp.llc.ServiceDiscovery.enqueue' % cls,
+            viol.append(('C17|resolve|%s|%s|'
+                         'nfc.llcp.llc.ServiceDiscovery.enqueue' % (cls, how),
                          dict(names=names, name=name, position=k, got=got,
                               expected=truth, table=self.table(w))))
 
